@@ -431,7 +431,7 @@ def c16(run):
     run.conformance("st_paths", "static", cf, "StaticTrace", TRACE_CFG % "", env=env, chunk_events=40000)
     gen = os.path.join(run.work, "st_rand.jsonl")
     with open(gen, "w") as fo:
-        p = run.hrun(["static", "gen", run.seed, 4000 if quick else 200000], stdout=fo)
+        p = run.hrun(["static", "gen", run.seed, 10000 if quick else 300000], stdout=fo)
     if p.returncode != 0:
         raise Infra("static gen failed: " + p.stderr[-2000:])
     run.conformance("st_hostile", "static", gen, "StaticTrace", TRACE_CFG % "", env=env, chunk_events=40000)
@@ -496,7 +496,7 @@ def c17(run):
     run.conformance("rd_random", "render", gen, "RenderTrace", TRACE_CFG % "", env=env, chunk_events=40000)
     return run.finish(
         rule="TLC enumerates the table format x status x charset x indentation x position of the handler relative to the Renderer "
-             "middleware (128 cells) and checks the code-shaped option handling against the table; every cell is rendered on a real Flame "
+             "middleware, with a different indentation configured for the other encoder (256 cells) and checks the code-shaped option handling against the table; every cell is rendered on a real Flame "
              "over a spy writer with random values (random nested JSON values, an XML document type, random bytes and text) and TLC "
              "validates status, Content-Type (also as seen when the status went out), resolvability of Render, and the logged facts that the "
              "body decodes back to the value and equals the standard encoder's output with the configured indentation; random statuses "
